@@ -33,4 +33,16 @@ META = {
         "note": "equality is serde_yaml::Mapping equality (keys, values, order)",
         "technique": "runtime monitoring: differential oracle between two entry points",
     },
+    "C01": {
+        "text": "Reference-model monitor: generated recipe specs are spelled many ways (25 independent spelling feature classes, up to maximally hostile) and the parse of every spelling is compared, as a whole serde_json image plus metadata order, with the recipe computed from the spec by a rule-based reference semantics written from the documentation. Canonical and extended parser. Exploration: the space of specs x spellings is infinite; coverage of constructs and spelling classes is measured and required.",
+        "design_ref": "DESIGN.md §6 C01, §4 G1, Appendix A",
+        "note": "trusts the reference semantics (my reading of the grammar comment, extensions.md and rustdoc) and the speller's exclusion list",
+        "technique": "runtime monitoring: reference-model oracle over generated spellings",
+    },
+    "C02": {
+        "text": "Differential monitor, exhaustive in the configuration dimension: every generated core-syntax spelling is parsed under all 192 extension subsets (one image, no error, equal to the model); a converse table checks the documented core reading of each extension's syntax under every subset lacking it.",
+        "design_ref": "DESIGN.md §6 C02",
+        "note": "core-only-ness of inputs is guaranteed by generator restriction (the property's own exclusion list), not decided by the parser",
+        "technique": "runtime monitoring: differential oracle across all extension subsets",
+    },
 }
